@@ -9,7 +9,7 @@ class Unsupported(Exception):
     """The language cannot express this token sequence (e.g. two catch clauses in TypeScript)."""
 
 
-FORMS = {"python": ["def", "async", "method", "decorated"],
+FORMS = {"python": ["def", "async", "method", "decorated", "withHelper"],
          "typescript": ["function", "arrow", "method", "fnexpr"],
          "rust": ["fn", "impl", "pubfn"]}
 
@@ -38,7 +38,18 @@ def python(name: str, toks: list, form: str) -> tuple[list[str], int]:
         out.append("    " * depth + s)
 
     emit("x = x + 1")
-    for kind, arg in toks:
+    # form "withHelper": nested function definitions are not control structures (Nesting.tla, NeutralStatements).  A
+    # helper that itself holds a helper is defined right after the DEEPEST statement: the enclosing function keeps its
+    # depth, both helpers are flat functions
+    deepest, h, best = -1, 0, 0
+    for n, (kind, _arg) in enumerate(toks):
+        if kind == "open":
+            h += 1
+            if h > best:
+                best, deepest = h, n
+        elif kind == "close":
+            h -= 1
+    for n_tok, (kind, arg) in enumerate(toks):
         if kind == "open":
             head = {"if": "if x > 0:", "for": "for item in xs:", "while": "while x < v:",
                     "with": "with ctx() as handle:", "try": "try:", "match": "match v:"}[arg]
@@ -49,6 +60,12 @@ def python(name: str, toks: list, form: str) -> tuple[list[str], int]:
                 emit("case 1:")
                 depth += 1
             emit("x = x + 2")
+            if form == "withHelper" and n_tok == deepest:
+                emit("def _step(y):")
+                emit("    def _inner(z):")
+                emit("        return z + 1")
+                emit("    return _inner(y)")
+                emit("x = _step(x)")
         elif kind == "branch":
             top = stack[-1]
             top["branched"] = True
